@@ -80,6 +80,7 @@ Record st := {
   dead : list nat;
   R : nat -> kind -> dict;             (* workspace -> kind -> registry *)
   flat : nat -> list (nat * nat);      (* workspace -> (kind index, uid) nodes of the flat containers Groups/Objects/Data *)
+  links : nat -> list ((nat * nat) * (nat * nat));   (* workspace -> child links: (parent node, child node), nodes as in flat *)
   fresh : nat }.                       (* next uuid4() *)
 
 Definition alive (w : st) (e : nat) : bool := negb (memb e (dead w)).
@@ -87,18 +88,25 @@ Definition root_of (ws : nat) : nat := 1 + 2 * ws.      (* instances 0,2 = the r
 Definition tuid (cls : nat) : nat := Nat.min cls 4.      (* default_type_uid of the class (0..4); entity uids start at 100 *)
 
 Definition set_E (w : st) (f : nat -> ent) : st :=
-  {| n := n w; E := f; dead := dead w; R := R w; flat := flat w; fresh := fresh w |}.
+  {| n := n w; E := f; dead := dead w; R := R w; flat := flat w; links := links w; fresh := fresh w |}.
 Definition upd (w : st) (x : nat) (f : ent -> ent) : st :=
   set_E w (fun y => if Nat.eqb y x then f (E w y) else E w y).
 Definition set_R (w : st) (ws : nat) (k : kind) (d : dict) : st :=
   {| n := n w; E := E w; dead := dead w;
      R := fun ws' k' => if Nat.eqb ws' ws && kind_eqb k' k then d else R w ws' k';
-     flat := flat w; fresh := fresh w |}.
+     flat := flat w; links := links w; fresh := fresh w |}.
 Definition set_flat (w : st) (ws : nat) (l : list (nat * nat)) : st :=
   {| n := n w; E := E w; dead := dead w; R := R w;
-     flat := fun ws' => if Nat.eqb ws' ws then l else flat w ws'; fresh := fresh w |}.
+     flat := fun ws' => if Nat.eqb ws' ws then l else flat w ws'; links := links w; fresh := fresh w |}.
 Definition set_dead (w : st) (l : list nat) : st :=
-  {| n := n w; E := E w; dead := l; R := R w; flat := flat w; fresh := fresh w |}.
+  {| n := n w; E := E w; dead := l; R := R w; flat := flat w; links := links w; fresh := fresh w |}.
+
+Definition set_links (w : st) (ws : nat) (l : list ((nat * nat) * (nat * nat))) : st :=
+  {| n := n w; E := E w; dead := dead w; R := R w; flat := flat w;
+     links := fun ws' => if Nat.eqb ws' ws then l else links w ws'; fresh := fresh w |}.
+
+Definition node_eqb (a b : nat * nat) : bool := Nat.eqb (fst a) (fst b) && Nat.eqb (snd a) (snd b).
+Definition link_eqb (a b : (nat * nat) * (nat * nat)) : bool := node_eqb (fst a) (fst b) && node_eqb (snd a) (snd b).
 
 Definition with_ch (r : ent) (c : list nat) (g : list nat) : ent :=
   {| euid := euid r; ekind := ekind r; ews := ews r; ecls := ecls r; epar := epar r; ech := c; epgs := g;
@@ -122,7 +130,7 @@ Definition outcome_code (o : outcome) : nat :=
 
 (* ---------------- allocation, parent.add_children, Workspace.register, H5Writer.save_entity ---------------- *)
 Definition alloc (w : st) (r : ent) : st * nat :=
-  ({| n := S (n w); E := fun y => if Nat.eqb y (n w) then r else E w y; dead := dead w; R := R w; flat := flat w; fresh := fresh w |}, n w).
+  ({| n := S (n w); E := fun y => if Nat.eqb y (n w) then r else E w y; dead := dead w; R := R w; flat := flat w; links := links w; fresh := fresh w |}, n w).
 
 (* Group.add_children: `if child in self._children: continue` (identity; a new instance is never in);
    ObjectBase.add_children: `if child.uid not in children_uids and isinstance(child, (Data, PropertyGroup))` *)
@@ -143,6 +151,22 @@ Definition kidx_storable (k : kind) : bool := match k with KGroup | KObject | KD
 Definition save_flat (w : st) (ws : nat) (k : kind) (u : nat) : st :=
   if kidx_storable k && negb (existsb (fun p => Nat.eqb (fst p) (kind_idx k) && Nat.eqb (snd p) u) (flat w ws))
   then set_flat w ws (flat w ws ++ [(kind_idx k, u)]) else w.
+
+(* H5Writer.write_to_parent: hard link under the parent's node, in the container of the child's kind, if absent *)
+Definition save_link (w : st) (ws : nat) (pn cn : nat * nat) : st :=
+  if existsb (link_eqb (pn, cn)) (links w ws) then w else set_links w ws (links w ws ++ [(pn, cn)]).
+
+(* H5Writer.save_entity of a new entity: its node, then the link from its parent's node *)
+Definition save_node (w : st) (ws par : nat) (k : kind) (u : nat) : st :=
+  let w1 := save_flat w ws k u in
+  if kidx_storable k then save_link w1 ws (kind_idx (ekind (E w par)), euid (E w par)) (kind_idx k, u) else w1.
+
+(* H5Writer.remove_child(uid, ref_type, parent) *)
+Definition del_link (w : st) (ws : nat) (pn cn : nat * nat) : st :=
+  set_links w ws (filter (fun l => negb (link_eqb l (pn, cn))) (links w ws)).
+(* a node deleted from its flat container: its own sub-containers are no longer reached through the flat containers *)
+Definition drop_node_links (w : st) (ws : nat) (nd : nat * nat) : st :=
+  set_links w ws (filter (fun l => negb (node_eqb (fst l) nd)) (links w ws)).
 
 (* constructor of an entity / property group: allocate, attach to the parent, THEN register, then store *)
 (* Workspace.get_entity(uid) = find_group or find_data or find_object or find_property_group (short-circuit) *)
@@ -195,7 +219,7 @@ Definition construct (c : cfg) (w : st) (ws : nat) (k : kind) (cls par u ty : na
       (if memb x (ech (E w2' par)) then w2' else kill w2' [x], Refused, x)
   | Some d =>
       let w3 := upd (set_R w2 ws k d) x (fun r => with_reg r props) in
-      let w4 := touch_metadata (save_flat w3 ws k u) ws k u in
+      let w4 := touch_metadata (save_node w3 ws par k u) ws k u in
       (* ObjectBase.add_children refuses a child whose uid is already among the children: nobody references the new
          instance once the call returns (the driver keeps only what it can reach) *)
       (if memb x (ech (E w4 par)) then w4 else kill w4 [x], Ok, x)
@@ -216,7 +240,7 @@ Definition find_or_create_type (w : st) (ws cls : nat) : st * nat :=
   end.
 
 Definition take_fresh (w : st) : st * nat :=
-  ({| n := n w; E := E w; dead := dead w; R := R w; flat := flat w; fresh := S (fresh w) |}, fresh w).
+  ({| n := n w; E := E w; dead := dead w; R := R w; flat := flat w; links := links w; fresh := S (fresh w) |}, fresh w).
 
 (* copy_to_parent's identifier rule *)
 Definition copy_uid (w : st) (ws u : nat) : st * nat :=
@@ -325,7 +349,9 @@ Definition sweep (w : st) (ws : nat) (k : kind) : st :=
   let deadkeys := map fst (filter (fun p => negb (alive w (snd p))) d) in
   let w1 := set_R w ws k (remove_none_referents (alive w) d) in
   if kidx_storable k
-  then set_flat w1 ws (filter (fun p => negb (Nat.eqb (fst p) (kind_idx k) && memb (snd p) deadkeys)) (flat w1 ws))
+  then
+    let w2 := set_flat w1 ws (filter (fun p => negb (Nat.eqb (fst p) (kind_idx k) && memb (snd p) deadkeys)) (flat w1 ws)) in
+    set_links w2 ws (filter (fun l => negb (Nat.eqb (fst (fst l)) (kind_idx k) && memb (snd (fst l)) deadkeys)) (links w2 ws))
   else w1.
 
 (* ws.remove_entity(object) -> remove_recursively: `for child in list(entity.children): self.remove_entity(child)`.
@@ -349,8 +375,11 @@ Definition clear_children (w : st) (o : nat) : st :=
                if kind_eqb (ekind (E w x)) KPG then drop_child w o x
                else
                  let w1 := drop_child (scrub_groups w o (euid (E w x))) o x in
-                 set_flat w1 (ews (E w o))
-                   (filter (fun q => negb (Nat.eqb (fst q) (kind_idx KData) && Nat.eqb (snd q) (euid (E w x)))) (flat w1 (ews (E w o)))))
+                 let w2 := set_flat w1 (ews (E w o))
+                   (filter (fun q => negb (Nat.eqb (fst q) (kind_idx KData) && Nat.eqb (snd q) (euid (E w x)))) (flat w1 (ews (E w o)))) in
+                 drop_node_links
+                   (del_link w2 (ews (E w o)) (kind_idx (ekind (E w o)), euid (E w o)) (kind_idx KData, euid (E w x)))
+                   (ews (E w o)) (kind_idx KData, euid (E w x)))
             (ech (E w o)) w.
 
 Definition step (c : cfg) (w : st) (a : op) : st * outcome :=
@@ -387,7 +416,9 @@ Definition step (c : cfg) (w : st) (a : op) : st * outcome :=
         let w0 := if kind_eqb (ekind (E w e)) KObject then clear_children w e else w in
         let w1 := upd w0 p (fun r => with_ch r (remove_one e (ech r)) (epgs r)) in
         let w2 := set_flat w1 ws (filter (fun q => negb (Nat.eqb (fst q) (kind_idx (ekind (E w e))) && Nat.eqb (snd q) (euid (E w e)))) (flat w1 ws)) in
-        (sweep w2 ws KType, Ok)
+        let w3 := drop_node_links (del_link w2 ws (kind_idx (ekind (E w p)), euid (E w p)) (kind_idx (ekind (E w e)), euid (E w e)))
+                                  ws (kind_idx (ekind (E w e)), euid (E w e)) in
+        (sweep w3 ws KType, Ok)
       else (w, BadOp)
   | ODie es =>
       (* an instance can only die when nothing alive outside the list points to it (a child keeps its _parent) *)
@@ -426,6 +457,7 @@ Definition init : st :=
                       | 1, KType => [(0, 2)] | 1, KGroup => [(11, 3)]
                       | _, _ => [] end;
      flat := fun ws => match ws with 0 => [(0, 10)] | 1 => [(0, 11)] | _ => [] end;
+     links := fun _ => [];
      fresh := 100 |}.
 
 (* ---------------- observations ---------------- *)
@@ -453,12 +485,24 @@ Definition sort (l : list nat) : list nat := fold_right sorted_ins [] l.
 Definition obs_flat (w : st) (ws : nat) (k : kind) : list nat :=
   ser_list (sort (map (fun p => uidrep w (snd p)) (filter (fun p => Nat.eqb (fst p) (kind_idx k)) (flat w ws)))).
 
+(* child links of the nodes the flat containers reach: [parent kind; parent uid; child kind; child uid] rows, sorted *)
+Definition link_row (w : st) (l : (nat * nat) * (nat * nat)) : N * list nat :=
+  let pk := fst (fst l) in let pu := uidrep w (snd (fst l)) in
+  let ck := fst (snd l) in let cu := uidrep w (snd (snd l)) in
+  ((((N.of_nat pk * 1000 + N.of_nat pu) * 10 + N.of_nat ck) * 1000 + N.of_nat cu)%N, [pk; pu; ck; cu]).
+Fixpoint ins_row (x : N * list nat) (l : list (N * list nat)) : list (N * list nat) :=
+  match l with [] => [x] | y :: r => if N.leb (fst x) (fst y) then x :: l else y :: ins_row x r end.
+Definition obs_links (w : st) (ws : nat) : list nat :=
+  let vis := filter (fun l => existsb (node_eqb (fst l)) (flat w ws)) (links w ws) in
+  length vis :: flat_map snd (fold_right ins_row [] (map (link_row w) vis)).
+
 Definition all_kinds : list kind := [KGroup; KObject; KData; KPG; KType].
 
 Definition observe (w : st) (o : outcome) : list nat :=
   outcome_code o :: n w :: flat_map (obs_inst w) (seq 0 (n w))
   ++ flat_map (fun ws => flat_map (obs_reg w ws) all_kinds) [0; 1]
-  ++ flat_map (fun ws => flat_map (obs_flat w ws) [KGroup; KObject; KData]) [0; 1].
+  ++ flat_map (fun ws => flat_map (obs_flat w ws) [KGroup; KObject; KData]) [0; 1]
+  ++ flat_map (obs_links w) [0; 1].
 
 Fixpoint run_obs (c : cfg) (w : st) (h : list op) : list (list nat) * st :=
   match h with
